@@ -44,7 +44,15 @@ type glink struct {
 	q      chan gwire
 	done   chan struct{}
 	closed atomic.Bool
+	kv     sync.Map
 }
+
+// Get / Set: thread-safe like the product's peer (mock.Peer's plain map would be raced on by the reactors' goroutines).
+func (p *glink) Get(k string) interface{} {
+	v, _ := p.kv.Load(k)
+	return v
+}
+func (p *glink) Set(k string, v interface{}) { p.kv.Store(k, v) }
 
 func (p *glink) down() {
 	if p.closed.CompareAndSwap(false, true) {
